@@ -34,6 +34,7 @@ from mc import common, explore, par, report
 from mc.fingerprint import canon
 
 PID = "C06"
+REPEAT_BUDGET = 300  # transitions per part that may repeat an already recorded failure before the part is cut short
 
 # ------------------------------------------------------------------ elements
 # ("o", long, short|None, mode)   mode 0 = flag, 1 = required value
@@ -329,6 +330,7 @@ class Spec(object):
         self.n_verified = 0
         self.n_rejected = 0
         self.n_nontrivial = 0
+        self.n_repeats = 0
         self.base = None
         self.base_canon = None
 
@@ -375,12 +377,17 @@ class Spec(object):
     def apply(self, st, op):
         op = norm(op)
         vs = self._apply(st, op)
-        # keep exploring past a failure whose signature was already recorded in this process: the first
-        # (simplest) instance is what the report keeps; what lies beyond a known defect is still explored
+        # Walk on past a failure whose signature this process has already recorded (the first, simplest instance is the
+        # one the report keeps), so that what lies behind a known defect is explored too - but only for a bounded number
+        # of repeats: on a badly broken implementation the explorer must stop, not wander through corrupt states.
         for v in vs:
             if v["sig"] not in self.seen_sigs:
                 self.seen_sigs.add(v["sig"])
                 return [v]
+        if vs:
+            self.n_repeats += 1
+            if self.n_repeats > REPEAT_BUDGET:
+                return vs[:1]
         return []
 
     def _apply(self, st, op):
@@ -745,7 +752,8 @@ def _run_part(p):
             v["case"]["extra"] = extra
         vs.append(v)
     return dict(r.as_dict(), violations=vs, samples=r.samples[:1], alphabet_size=len(spec.alphabet),
-                verified=spec.n_verified, nontrivial=spec.n_nontrivial, rejected=spec.n_rejected)
+                verified=spec.n_verified, nontrivial=spec.n_nontrivial, rejected=spec.n_rejected,
+                cut_short_by_failures=spec.n_repeats > REPEAT_BUDGET, n_violations=len(r.violations))
 
 
 def main():
@@ -761,6 +769,7 @@ def main():
     tot = dict(states=0, transitions=0, verified=0, nontrivial=0, rejected=0)
     closed, unclosed = [], []
     allv = []
+    cut = []
     for i, r in zip(order, results):
         alpha, base, depth, dedup, _ = parts[i]
         name = "%s@%s%s" % (alpha, base, "" if dedup else ":nodedup")
@@ -771,8 +780,11 @@ def main():
         for k in tot:
             tot[k] += r[k]
         if dedup:
-            (closed if r["closed"] else unclosed).append(name)
-        if depth == 99 and not r["closed"] and not rep.violations:
+            # a part that hit failures may have been left early by the explorer: it is not claimed to have closed
+            (closed if r["closed"] and not r["n_violations"] else unclosed).append(name)
+        if r["cut_short_by_failures"]:
+            cut.append(name)
+        if depth == 99 and not r["closed"] and not r["n_violations"]:
             rep.violation(report.viol("engine:graph-did-not-close", "part %s was expected to close" % name, {"part": name}))
     # simplest case first across parts; a query that fails on the builder is not reported again for the paths behind it
     allv.sort(key=_simplicity)
@@ -797,7 +809,8 @@ def main():
     rep.set("closed_parts", closed)
     rep.set("depth_bounded_parts", unclosed)
     rep.set("rotated_extra_element", extra)
-    rep.set("exhaustive", True)
+    rep.set("parts_cut_short_by_failures", cut)
+    rep.set("exhaustive", not cut)
     rep.set("rule", "per part: every operation sequence over the part's alphabet on the part's base format, up to the depth bound or "
                     "(closed parts) of any length, executed on the real ArgsFormatBuilder; I1 on every transition; I2-I6 (builder, built "
                     "format, ArgsFormat(elements, base), CommandConfig.build_args_format, each against the reference on every query) once "
